@@ -696,6 +696,11 @@ class Interp(object):
 
     # ---- attribute access ----------------------------------------------------
     def getattr(self, v, attr, node=None):
+        if isinstance(v, ast.AST):
+            try:
+                return getattr(v, attr)
+            except AttributeError:
+                raise InterpRaise('AttributeError', '%s has no attribute %r' % (type(v).__name__, attr), node)
         if isinstance(v, Obj):
             if attr in v.attrs:
                 return v.attrs[attr]
@@ -789,7 +794,7 @@ class Interp(object):
             return Native('SymDict.get', sd_get)
         if isinstance(v, SymSet):
             return Native('symset_' + attr, lambda it, a, k, s=v, at=attr: it.symset_method(s, at, a))
-        if isinstance(v, (list, dict, set, str, tuple)):
+        if isinstance(v, (list, dict, set, str, tuple, bytes)):
             return Native('%s.%s' % (type(v).__name__, attr),
                           lambda it, a, k, _v=v, _a=attr: it.native_method(_v, _a, a, k))
         if isinstance(v, Native) and isinstance(getattr(_builtins, v.name, None), type) \
@@ -839,6 +844,8 @@ class Interp(object):
             self.effect('setattr', v.path, attr, value)
         elif isinstance(v, FuncVal):
             v.attrs[attr] = value
+        elif isinstance(v, ast.AST):        # a concrete parse tree handed to interpreted code (column-unit model)
+            setattr(v, attr, value)
         else:
             raise Uninterpretable('attribute store on %r' % (v,))
         if self.on_setattr is not None:
@@ -880,6 +887,11 @@ class Interp(object):
             return r
         if isinstance(v, tuple):
             return getattr(v, attr)(*args, **kwargs)
+        if isinstance(v, bytes) and attr in ('decode', 'startswith', 'endswith', 'find', 'count', 'split', 'strip', 'hex'):
+            try:
+                return getattr(v, attr)(*args, **kwargs)
+            except UnicodeError as e:
+                raise InterpRaise(type(e).__name__, str(e))
         raise Uninterpretable('method %s.%s' % (type(v).__name__, attr))
 
     def symset_method(self, s, attr, args):
@@ -989,7 +1001,7 @@ class Interp(object):
 
     def nat_len(self, args, kwargs):
         v, = args
-        if isinstance(v, (list, tuple, dict, set, str)):
+        if isinstance(v, (list, tuple, dict, set, str, bytes)):
             return len(v)
         raise Uninterpretable('len of %r' % (v,))
 
@@ -1845,6 +1857,8 @@ class Frame(object):
 def _sym_children(it, args, kwargs):
     """ast.iter_child_nodes on a symbolic node: its child nodes in field order (an opaque leaf has none that are known)."""
     n = args[0]
+    if isinstance(n, ast.AST):
+        return list(ast.iter_child_nodes(n))
     if not isinstance(n, SymNode):
         raise Uninterpretable('ast.iter_child_nodes(%r)' % (n,))
     out = []
@@ -1858,6 +1872,8 @@ def _sym_children(it, args, kwargs):
 
 def _sym_walk(it, args, kwargs):
     """ast.walk on a symbolic node: breadth first, like the stdlib."""
+    if isinstance(args[0], ast.AST):
+        return list(ast.walk(args[0]))
     if not isinstance(args[0], SymNode):
         raise Uninterpretable('ast.walk(%r)' % (args[0],))
     todo, out = [args[0]], []
